@@ -3055,7 +3055,7 @@ def materialise_factories(db):
 
 
 def self_partialmethod(db, m, v, funcs):
-    """FunctionDef for `partialmethod(f, *bound, **kwbound)` with f a plain
+    """N28.  FunctionDef for `partialmethod(f, *bound, **kwbound)` with f a plain
     module-level function: def _(self, <rest>): return f(self, *bound,
     <rest>, **kwbound); None when the call is not of that form."""
     try:
